@@ -9,6 +9,7 @@
 use std::collections::HashMap;
 use std::io;
 use std::net::SocketAddr;
+use std::sync::atomic::{AtomicUsize, Ordering};
 use std::sync::Mutex;
 
 use http::{Request, Response};
@@ -22,6 +23,39 @@ struct LocalServer {
 }
 
 static LOCAL_SERVERS: Mutex<Option<HashMap<SocketAddr, LocalServer>>> = Mutex::new(None);
+
+static BODY_CHUNK_SIZE: AtomicUsize = AtomicUsize::new(0);
+
+/// Makes the in-process transport deliver request and reply bodies as a stream of
+/// pieces of at most `n` bytes with no length hint, the way a HTTP/2 connection may
+/// deliver a body. `0` (the default) passes bodies through unchanged.
+pub fn set_body_chunk_size(n: usize) {
+    BODY_CHUNK_SIZE.store(n, Ordering::SeqCst);
+}
+
+async fn rechunk(body: hyper::Body) -> hyper::Body {
+    let n = BODY_CHUNK_SIZE.load(Ordering::SeqCst);
+    if n == 0 {
+        return body;
+    }
+
+    let data = match hyper::body::to_bytes(body).await {
+        Ok(data) => data,
+        Err(_) => return hyper::Body::empty(),
+    };
+    let (mut tx, chunked) = hyper::Body::channel();
+    tokio::spawn(async move {
+        let mut offset = 0;
+        while offset < data.len() {
+            let end = std::cmp::min(offset + n, data.len());
+            if tx.send_data(data.slice(offset..end)).await.is_err() {
+                return;
+            }
+            offset = end;
+        }
+    });
+    chunked
+}
 
 pub(crate) fn register_local_server(addr: SocketAddr, state: ServerState) {
     let mut lock = LOCAL_SERVERS.lock().unwrap();
@@ -68,8 +102,10 @@ pub(crate) async fn try_local_dispatch(
         server.state.clone()
     };
 
-    let request = std::mem::take(request);
+    let (parts, body) = std::mem::take(request).into_parts();
+    let request = Request::from_parts(parts, rechunk(body).await);
     let client_addr = SocketAddr::from(([127, 0, 0, 1], 1));
     let resp = crate::net::verif_handle_connection(request, state, client_addr).await;
-    Some(Ok(resp.unwrap()))
+    let (parts, body) = resp.unwrap().into_parts();
+    Some(Ok(Response::from_parts(parts, rechunk(body).await)))
 }
